@@ -97,3 +97,8 @@ add("C10", "c10", "exploration", 2000, 60000, module="harness26", toolchain="go1
                  "the registry and token servers are an in-memory fake world (harness26/authworld) that grants exactly the scope it is asked for or refuses; tokens are self-describing",
                  "tokens with less than the documented 1 s margin left may be reused or refreshed (the margin is a mechanism, not part of the statement)",
                  "concurrent batches assert only the order-independent invariants (own / unexpired tokens)"])
+
+add("C11", "c11", "exploration", 2000, 60000, module="harness26", toolchain="go1.26.8",
+    assumptions=["in-memory fake world of registries and token servers (harness26/authworld); secrets are unique strings searched in every outgoing request (also base64- and URL-decoded)",
+                 "a destination counts as 'named by the registry' when its host appears in a challenge header that registry has already sent",
+                 "redirecting token realms (3xx with Location) are outside the stated fault set"])
